@@ -34,8 +34,62 @@ CHECKS = {
    text="Model checking: laws of the reference on every enumerated case (fresh vs same identity, splice/slice/length laws, sort = stable permutation with undefined last, codec laws for the nine element kinds incl. 13 hand-checked binary32 vectors, views stay inside their buffer) and the array store as a state machine (14 methods x receivers x responder tables, depth 2/3: density, reference integrity, frame condition; quick 7k, thorough 440k distinct states). Conformance: TLC enumerates (method, receiver, args) over 44 receivers of length 0..6 x the adversarial index grid, every callback method x every responder table of length <= 3 over {truthy, falsy, throw, push, pop, shorten}, sort over all short arrays x 10 comparators, typed-array scripts (9 kinds x stored-value grid, construction from length/array/buffer, two views of one buffer, set, subarray); the engine replays (~70k judged records in quick); TLC judges result or error class, identity, a snapshot of every array after the call and the callback log. Thorough adds seeded random histories validated event by event by a total trace specification.",
    design_ref="DESIGN.md 5/C17, notes/C17.md",
    note="Trusted: TLC, wire codec, JsArray/TypedArr as transcriptions of ECMA-262 under the documented stricter mode (dense arrays, out-of-bound writes are errors); comparator call sequences and the order produced by inconsistent comparators are not judged (implementation-defined)."),
+
+ "C05": dict(
+   technique="TLA+ small-step reference machine MiniJS (CEK style) model-checked by TLC on every enumerated program; program families enumerated by TLC as ASTs, rendered, run on the engine, (log, completion | error) judged by TLC",
+   text="Model checking: MiniJS.tla executes every enumerated program under TLC with invariants KontWF, FinallyOnce, TryAccounting, log append-only (action property) and termination within the step bound. Conformance: TLC enumerates the families CF (construct x exit kind x enclosing construct x placement/expression context x guard: 1 857 quick / ~9 700 thorough), SW (switch fall-through/default position), EO (evaluation order, every operand a logging call), HO (hoisting), CV (completion values), CL (closures: captured kind x access x activations); harness/render.py renders the AST, the engine runs it with log exposed, TLC judges the ordered log and the completion value or uncaught error against MiniJS; seeded random larger programs on top. Recorded findings are exact named deviations (completion value of try/loops).",
+   design_ref="DESIGN.md 5/C05, notes/C05.md",
+   note="Trusted: TLC, MiniJS as a transcription of ECMA-262 for the fragment (var/function, loops, switch, labels, try, closures, arguments), render.py (cross-checked), wire codec. Programs outside the fragment yield 'unsupported' (machinery failure for enumerated programs, not judged for random ones)."),
+ "C07": dict(
+   technique="MiniJS.tla reference machine (exceptions, finally-once history counters, natives as machine frames) + TLC-enumerated throw-site x handler x nesting x context families replayed on the engine and judged by TLC; shift law for locations",
+   text="Model checking: FinallyOnce / TryAccounting / unwinding invariants of MiniJS on every enumerated program. Conformance: TLC enumerates throw site (statement, member access on null/undefined, call of a non-function, unknown identifier, built-ins that raise, callbacks of forEach/map/sort, getters, setters) x handler placement (same function, caller, caller across a native frame, none) x try nesting with every exit kind x expression context; TLC judges log, outcome, error class (instanceof its constructor and Error), name, and lineNumber/columnNumber of the throw; each program is also rendered shifted by k lines/columns and the reported locations must shift by k. Quick ~1 700 judged items incl. 200 shifted renderings and 200 seeded random programs.",
+   design_ref="DESIGN.md 5/C07, notes/C07.md",
+   note="Trusted: TLC, MiniJS, render.py. Error message text is recorded, not judged; the Python-side name of the JSError of an uncaught throw is not judged."),
+ "C15": dict(
+   technique="Slots.tla (compile-time permutations of the set-derived slot lists, run-time wiring by name) model-checked by TLC; closure-heavy programs and corpus scripts run under 16/64 hash seeds and in shuffled batches, outcomes and slot layouts judged by TLC",
+   text="Model checking: Slots.tla chooses an arbitrary permutation for locals / cell vars / free vars at compile time and wires closures by name at run time; TLC checks that the observable behaviour is the same for every permutation (5 424 layouts, 163k states quick). Conformance: the C05 closure family, seeded closure-heavy programs and the corpus run under PYTHONHASHSEED 0..15 (thorough 64) in separate processes and in shuffled batches in one process; TLC judges that all outcomes are equal, equal to the MiniJS reference, and that every observed slot layout is an instance of the model's nondeterministic choice (fixed prefix params, arguments[, name]).",
+   design_ref="DESIGN.md 5/C15, notes/C15.md",
+   note="Trusted: TLC, MiniJS, the layout exporter. Math.random and Date.now are excluded as the property states."),
+ "C11": dict(
+   technique="Boundary.tla (ToJs/ToPy as recursive operators, context as a store of copies) model-checked by TLC; set/get/eval/host-call/mutation traces on boundary and random values judged by TLC",
+   text="Model checking: ToPy(ToJs(v)) = Norm(v), idempotence, bool/int separation over a 20k-value grid; 16 hand-checked int->double vectors. Conformance: 483 TLC-enumerated boundary traces, all 12 336 interleavings of 5 set/eval/get events on two names, 3 000 (thorough 60 000) seeded random traces with events set, script view, get, eval(name), eval(expr), host call (7 forms), mutate-returned, mutate-passed; TLC judges every observation against the store-of-copies model, so aliasing shows up as a mismatch on a later get.",
+   design_ref="DESIGN.md 5/C11, notes/C11.md",
+   note="Trusted: TLC, wire codec. Ints beyond 2^53 may come back exact or correctly rounded; cyclic values are C04's subject; containers returned by host callables are passed through as documented."),
+ "C12": dict(
+   technique="ContextModel.tla state machine (two contexts, 20 snippet kinds) model-checked by TLC; all histories of 3/4 events replayed on real contexts with full-state probes after every event, validated by a total TLC trace specification",
+   text="Model checking: Frame (an action on one context leaves the other unchanged, as an action property), Recovery (every context equals its error-free twin), EffectsPersist, PointerClear, NestingBalanced over all histories <= 6 events (1.24M states), coverage: all 22 actions fire. Conformance: TLC emits all 56 584 histories of 3 events (thorough: 368k of 4 events + 2 000 simulated of 60 events over 3 contexts) over define/assign/delete/mutate built-in/throw after effect/loop forever (virtual clock)/recurse forever/syntax error/indirect eval/new Function/re-entrant eval/set/get; the driver probes the whole projected state of every context after every event; the trace specification (clauses outcome, result, pointer, leak, frame, state) replays every event, is total, and its binding is self-tested on every run (corrupted field, dropped event).",
+   design_ref="DESIGN.md 5/C12, notes/C12.md",
+   note="Trusted: TLC, the probe (13-field projection per context), virtual clock."),
+ "C09": dict(
+   technique="RegexSem.tla (ECMAScript backtracking matcher as ordered result lists, capture reset, empty-iteration rule, flags) with laws model-checked by TLC; all ASTs up to a size x all short subjects enumerated by TLC, run through RegExp.exec and script-level exec, judged by TLC",
+   text="Model checking: laws of RegexSem (match bounds, greedy/lazy agree on existence, Render round trip). Conformance: TLC enumerates all patterns with <= 1 operator node over 14 atoms and <= 2 over a reduced atom set (thorough 3) with every operator kind (quantifiers greedy/lazy/counted, groups, alternation, backreference, lookahead, lookbehind) x all subjects over {a,b,c} up to length 4/5, flag sets i/m/s where they matter: quick 6 166 patterns / 1.05M (pattern, subject) pairs / 2.2M judged evaluations (API and script level); TLC judges index, match text and every capture (undefined vs empty). The reference was additionally compared with V8 on the whole quick space by the builder (0 differences). Thorough adds seeded random patterns of depth <= 3.",
+   design_ref="DESIGN.md 5/C09, notes/C09.md",
+   note="Trusted: TLC, RegexSem as a transcription of ECMA-262 22.2.2; case folding judged on ASCII (documented). Residual recorded finding: captures/backreferences inside lookbehind (needs a backward matcher)."),
+ "C10": dict(
+   technique="RegexVM.tla budget model (step_limit, stack_limit, poll) model-checked by TLC; all pattern strings over the metacharacter vocabulary up to length 4/5 constructed through literal / RegExp() / new RegExp and judged by TLC (outcome typing + acceptor), catastrophic families with step counting through the hook",
+   text="Model checking: RegexVM.tla invariants (every loop kind counts and polls, steps <= step_limit + 1 per attempt, stack <= stack_limit + 1, defined outcome on exhaustion). Conformance: construction of all 245 411 strings of length <= 4 over 22 regex metacharacters (thorough 5.4M of length <= 5), flag strings, huge quantifiers, thousands of groups through three channels: outcome must be a regex or a SyntaxError that a script catch receives and that reaches Python as JSError, and agree with RegexSem's pattern acceptor inside the supported syntax; catastrophic-backtracking families x subject lengths up to 10^4 with and without time limit, steps counted through the hook against the model's bound; outcome match / null / JSError family.",
+   design_ref="DESIGN.md 5/C10, notes/C10.md",
+   note="Trusted: TLC, hook step counts. Completing a 10^9-step match is bounded by counting, not by running."),
+ "C20": dict(
+   technique="LastIndex.tla / RegexApi.tla state machine (state = lastIndex) model-checked by TLC; all exec/test/assign/read histories of length 3/4 x flags x patterns x subjects replayed and trace-validated step by step by TLC; regex-driven string methods judged against RegexApi",
+   text="Model checking: the lastIndex protocol over all histories <= 6 of the model (Sync of the two copies at every API return, range of lastIndex). Conformance: all histories of length 3 (quick, 17k + 192k with integer/float lastIndex variants; thorough length 4, 2.1M) over {exec, test, lastIndex = k for k in 0,1,2,len,len+1,-1,1.5,'1', read} x flags {'', g, y, gy, gi, gm} x patterns (two match empty) x subjects; each history returns [result, lastIndex] after every step and a total trace specification validates it; match/replace/replaceAll/split/search with regex arguments, replacement templates ($$ $& $` $' $n $nn) and function replacers (128k calls quick) judged by RegexApi incl. lastIndex afterwards.",
+   design_ref="DESIGN.md 5/C20, notes/C20.md",
+   note="Trusted: TLC, RegexSem/RegexApi as transcriptions of ECMA-262 (RegExpBuiltinExec, AdvanceStringIndex, GetSubstitution)."),
+ "C13": dict(
+   technique="JsGrammar.tla (precedence table, minimal-parenthesis printer, precedence-climbing parser) with round-trip laws model-checked by TLC; expression trees enumerated by TLC, parsed by the engine, trees and values judged by TLC; named rejection classes",
+   text="Model checking: ParseExpr(Print(t)) = t and 'removing any printed parenthesis pair changes the tree' on all enumerated trees. Conformance: all expression trees over all operators of depth <= 2 and triples in left/right nested shapes (45k trees quick) printed with minimal parentheses, parsed by the engine's Parser and normalised: TLC judges tree equality; the same programs under seeded trivia (spaces, tabs, newlines, both comment kinds outside the restricted positions) and redundant parentheses: same tree, same value; literal spellings (number bases/fractions/exponents, string escapes, quote styles) denote equal values; rejection judged only for the classes the property names (deleted closing bracket/quote/comment or regex terminator: 2.6k; non-reference assignment/update targets, -a ** b: 2.7k).",
+   design_ref="DESIGN.md 5/C13, notes/C13.md",
+   note="Trusted: TLC, JsGrammar's table as ECMA-262's, the AST normaliser. The engine's tolerance of missing statement separators is not judged (property text)."),
+ "C06": dict(
+   technique="JsOps.tla over relational IEEE-754 predicates (Dbl.tla/BigNat.tla: correct rounding checked with exact bignum arithmetic, the engine's result as certificate) with laws model-checked by TLC; operand grid^2 x operators x assignment-target forms enumerated by TLC, judged by TLC",
+   text="Model checking: laws of JsOps on the grid (a<b == b>a, == symmetric, === implies ==, NaN poisons arithmetic, typeof total, commutativity). Conformance: all pairs of a 34-value (thorough ~80) boundary grid of every primitive type x ~45 operators, all assignment-target forms (global/local/closure variable, member dotted/computed, array element) of compound and update operators, both internal number representations: 54.5k enumerated cells + 1 500 random expression trees in quick; TLC judges type, bits and sign of zero directly where the spec computes the result and through AddOK/MulOK/DivOK/FmodOK/DecimalDenotes/IsShortest where it is a rounded double or its text.",
+   design_ref="DESIGN.md 5/C06, notes/C06.md",
+   note="Trusted: TLC, BigNat/Dbl predicates (validated against an exact Fraction oracle on 5 449 cases in round 0), wire codec. ** with irrational exact results: only special values and exactly representable results judged."),
 }
 NOT_APPLICABLE = {}
+# checks whose quick tier the lead has run green on the current /repo HEAD (three seeds); the others stay listed under
+# not_applicable ("under construction") until verified
+ENABLED = ["C01", "C02", "C03", "C14", "C16", "C17"]
 ALL = ["C%02d" % i for i in range(1, 21)]
 PENDING_REASON = "check under construction in this round: not yet claimed (no evidence produced); see DESIGN.md section 8"
 
@@ -43,7 +97,7 @@ PENDING_REASON = "check under construction in this round: not yet claimed (no ev
 def main():
     checks = []
     for pid in ALL:
-        if pid not in CHECKS:
+        if pid not in CHECKS or pid not in ENABLED:
             continue
         c = CHECKS[pid]
         checks.append({
@@ -57,7 +111,7 @@ def main():
             "level_note": c["note"],
             "technique": c["technique"],
         })
-    na = [{"property_id": p, "reason": NOT_APPLICABLE.get(p, PENDING_REASON)} for p in ALL if p not in CHECKS]
+    na = [{"property_id": p, "reason": NOT_APPLICABLE.get(p, PENDING_REASON)} for p in ALL if p not in CHECKS or p not in ENABLED]
     hooks_commit = subprocess.run(["git", "-C", "/repo", "log", "--format=%h", "--grep", "verification hooks"],
                                   capture_output=True, text=True).stdout.split()
     m = {
@@ -70,7 +124,7 @@ def main():
       "source_commits": hooks_commit,
       "add_only": True,
      },
-     "engines": [{"name": "tlc", "path": "/verif/harness/tlc.py", "serves_properties": sorted(CHECKS),
+     "engines": [{"name": "tlc", "path": "/verif/harness/tlc.py", "serves_properties": sorted(p for p in CHECKS if p in ENABLED),
                   "kind_free_text": "TLC 1.8 model checker on explicit TLA+ specifications in /verif/spec, bound to the engine by replay (spec->code) and trace/observation judging (code->spec)"}],
      "checks": checks,
      "not_applicable": na,
